@@ -93,8 +93,10 @@ func (d *deduplicationStrategy) eval(
 		}
 		del = append(del, refs...)
 		d.counts["refs"] += len(refs)
-	} else if e.IsDeleted == d.prev.IsDeleted {
-		// if the entity is not equal to the previous entity, we can still check for just reference duplicates
+	} else if e.IsDeleted == d.prev.IsDeleted && !hasLaterVersionWithSameTxnTime(jsonKey, txn) {
+		// if the entity is not equal to the previous entity, we can still check for just reference duplicates.
+		// not when a later version of the entity was stored in the same batch: reference keys carry the txn time but
+		// not the position in the batch, so the keys of this version are also the keys of that later version
 		for k, stringOrArrayValue := range e.References {
 			if reflect.DeepEqual(d.prev.References[k], stringOrArrayValue) {
 				// reference is identical to previous version, so we can delete the current reference
@@ -147,6 +149,26 @@ func (d *deduplicationStrategy) eval(
 		return res, nil
 	}
 	return nil, nil
+}
+
+// hasLaterVersionWithSameTxnTime checks if the version after the given one belongs to the same entity, dataset and batch
+//
+//	0:2: json index, uint16
+//	2:10: entity id, uint64
+//	10:14: dataset id, uint32
+//	14:22: txn time, uint64
+//	22:24: position in batch, uint16
+func hasLaterVersionWithSameTxnTime(jsonKey []byte, txn *badger.Txn) bool {
+	opts := badger.DefaultIteratorOptions
+	opts.PrefetchValues = false
+	opts.Prefix = jsonKey[:22]
+	it := txn.NewIterator(opts)
+	defer it.Close()
+	it.Seek(jsonKey)
+	if it.ValidForPrefix(opts.Prefix) && bytes.Equal(it.Item().Key(), jsonKey) {
+		it.Next()
+	}
+	return it.ValidForPrefix(opts.Prefix)
 }
 
 // findChangeLogKeys finds the change log key for a given json key. format:
